@@ -12,31 +12,51 @@
 (*   clears seqnos at which clear() was installed                          *)
 (*   taint  <<key, seqno>>: a drop_range installed at seqno covered key    *)
 (*   haz    keys hit by a listed known finding (KnownFindings.tla)         *)
+(*   fx     compaction filter effects [k, s, c, t, v]                      *)
 (***************************************************************************)
 EXTENDS LsmCore
 
-AInit == [log |-> {}, act |-> {}, sld |-> {}, clears |-> {}, taint |-> {}, haz |-> {}]
+AInit == [log |-> {}, act |-> {}, sld |-> {}, clears |-> {}, taint |-> {}, haz |-> {}, fx |-> {}]
 
-\* records a snapshot S can see: written below S and not cut off by a clear below S
-LiveAt(a, S) == {r \in a.log : r.s < S /\ \A c \in a.clears : c < S => r.s > c}
+\* a compaction filter verdict applied by a compaction installed with seqno c rewrites
+\* record (k, s) for snapshots taken afterwards: fx holds [k, s, c, t, v], t = "D" destroyed
+EffRec(a, r, S) ==
+    LET es == {x \in a.fx : x.k = r.k /\ x.s = r.s /\ x.c < S}
+    IN IF es = {} THEN r
+       ELSE LET x == CHOOSE y \in es : \A z \in es : z.c <= y.c
+            IN [k |-> r.k, s |-> r.s, t |-> x.t, v |-> x.v]
+
+\* records a snapshot S can see: written below S, not cut off by a clear below S, as
+\* rewritten by the filter verdicts installed below S
+LiveAt(a, S) ==
+    LET base == {q \in a.log : q.s < S /\ \A c \in a.clears : c < S => q.s > c}
+    IN IF a.fx = {} THEN base
+       ELSE {e \in {EffRec(a, r, S) : r \in base} : e.t # "D"}
 
 \* what an ordered map replaying the acknowledged writes returns at snapshot S
-Oracle(a, k, S) ==
-    LET r == NewestIn(LiveAt(a, S), k, S)
+\* (the ...L variants take L = LiveAt(a, S) computed once)
+OracleL(L, k, S) ==
+    LET r == NewestIn(L, k, S)
     IN IF r = None \/ IsTomb(r) THEN NoVal ELSE r.v
+Oracle(a, k, S) == OracleL(LiveAt(a, S), k, S)
 
 OracleScan(a, S, b) == ScanOf(LiveAt(a, S), S, b)
 
 \* drop_range deliberately leaves reads of the keys it covered unconstrained (for
 \* snapshots taken after it) until the key is written again
 \*   taint: set of <<k, d>>: a drop_range installed with seqno d covered key k
-Defined(a, k, S) ==
+DefinedL(a, L, k, S) ==
     /\ k \notin a.haz
     /\ \A p \in a.taint :
-        p[1] = k /\ p[2] < S => \E r \in LiveAt(a, S) : r.k = k /\ r.s > p[2]
+        p[1] = k /\ p[2] < S => \E r \in L : r.k = k /\ r.s > p[2]
+Defined(a, k, S) == DefinedL(a, LiveAt(a, S), k, S)
 
 Durable(a) == a.log \ (a.act \cup a.sld)
-LiveDurable(a) == LiveAt(a, Top) \ (a.act \cup a.sld)
+\* durable records as the newest snapshot sees them (filter verdicts applied)
+DurableEff(a) == {e \in {EffRec(a, r, Top) : r \in Durable(a)} : e.t # "D"}
+LiveDurable(a) == {e \in LiveAt(a, Top) : \A u \in a.act \cup a.sld : ~(u.k = e.k /\ u.s = e.s)}
+\* compaction filter effects (C17)
+AFilter(a, fxs) == [a EXCEPT !.fx = @ \cup fxs]
 
 AWrite(a, es)  == [a EXCEPT !.log = @ \cup es, !.act = @ \cup es]
 ARotate(a)     == [a EXCEPT !.sld = @ \cup a.act, !.act = {}]
